@@ -32,12 +32,20 @@ def run(model, res, tier):
     res.rule('R6', 'string literal strips its delimiters only')
     res.rule('R7', 'labels are upper-cased; cell tokens case-symmetric')
     res.rule('R8', 'grammar actions keep no shared state')
+    res.rule('R9', 'the lexer reads the formula text as it was written: from parse() down to the ply parser the text is handed on unchanged '
+             '(no rewriting pass in front of the lexer)')
     res.trusted += ['hxsa abstract interpreter (list-shape domain) and builtin models', 're._parser', 'ply 3.11 token ordering']
-    _r1_r2(model, res, g)
-    _r3(model, res, c, g)
-    _r4(model, res, g)
-    _r5_r6(model, res, c, g)
-    _r7(model, res, c, g)
+    H.safely(res, 'R1', 'r1_r2', _r1_r2, model, res, g)
+    H.safely(res, 'R3', 'r3', _r3, model, res, c, g)
+    H.safely(res, 'R4', 'r4', _r4, model, res, g)
+    H.safely(res, 'R5', 'r5_r6', _r5_r6, model, res, c, g)
+    H.safely(res, 'R7', 'r7', _r7, model, res, c, g)
+    H.safely(res, 'R9', 'r9', _r9, model, res, c)
+    from . import c09
+    cbs = c09.callbacks(c)
+    if 'call_function' in cbs:
+        res.rule('R10', 'the argument list the grammar built reaches the function as it is: one invocation with every slot (shared with C09.R2)')
+        H.borrow(res, 'R10', 'call callback', lambda tmp: c09._r2(model, tmp, c, cbs['call_function']))
     keys = [(m.name, m.qualname_of(f)) for (m, f) in g.action_funcs.values()]
     region = set(keys)
     purity.check_region(res, c, 'R8', 'R8', region, 'a grammar action')
@@ -519,3 +527,73 @@ def _r7(model, res, c, g):
         if w is not None:
             res.violation('R7', 'lexer:t_%s:case' % tok, g.lexer_module.where(t.node),
                           'token %s does not match the label %r' % (tok, w), func='t_' + tok)
+
+
+# ---------------------------------------------------------------------------------------------------
+# R9: no rewriting pass between parse(text) and the lexer
+
+def _r9(model, res, c):
+    """Every ply parse call takes its text argument straight from a parameter of the enclosing function, and every package call of
+    that function passes its own parameter (or the text it was given) on in turn, up to the public parse().  Dropping surrounding
+    whitespace is the one rewriting the whitespace rule makes harmless (R1: whitespace is a token of its own that is discarded)."""
+    cg = c.cg
+    sites = []
+    for k, (m, f) in sorted(cg.funcs.items()):
+        for n in ast.walk(f) if '.<locals>.' not in k[1] else []:
+            if isinstance(n, ast.Call) and isinstance(n.func, ast.Attribute) and n.func.attr == 'parse' and \
+                    isinstance(n.func.value, ast.Attribute) and n.func.value.attr in cg.yacc_attrs:
+                # the text is ply's first parameter, ``input``
+                text_arg = n.args[0] if n.args else next((kw.value for kw in n.keywords if kw.arg == 'input'), None)
+                if text_arg is not None:
+                    sites.append((k, m, f, n, text_arg))
+    res.floor('ply parse calls with a text argument', len(sites), 1)
+
+    def origin(f, e, depth=0):
+        """Parameter name the expression is (transitively, through once-bound locals and bare strip()) or None."""
+        e = sa.resolve_local(f, e) if isinstance(e, ast.Name) else e
+        if isinstance(e, ast.Name):
+            return e.id if e.id in sa.params(f) else None
+        if isinstance(e, ast.Call) and isinstance(e.func, ast.Attribute) and e.func.attr in ('strip', 'lstrip', 'rstrip') and not e.args \
+                and not e.keywords and depth < 3:
+            return origin(f, e.func.value, depth + 1)
+        return None
+    todo = list(sites)
+    seen = set()
+    n_links = 0
+    while todo:
+        k, m, f, call, arg = todo.pop()
+        if (k, id(call)) in seen:
+            continue
+        seen.add((k, id(call)))
+        par = origin(f, arg)
+        n_links += 1
+        # a text that does not come from a parameter at all (read from a console, a constant) is a source, not a rewriting
+        full = arg
+        for _ in range(4):
+            full = sa.resolve_local(f, full) if isinstance(full, ast.Name) else full
+        mentions = set(x.id for x in ast.walk(full) if isinstance(x, ast.Name)) & set(sa.params(f))
+        if par is None and not mentions:
+            res.ob('R9', fmt(k), 'text argument of %s' % src(call)[:60], True, 'a source of text (%s), not a hand-over' % src(arg)[:60])
+            continue
+        # the parameter itself must still hold the text: a rebinding (text = rewrite(text)) is a rewriting pass as well
+        if par is not None:
+            for st_, val_ in sa.assignments_to(f, par):
+                if val_ is None or origin(f, val_) != par:
+                    arg = val_ if val_ is not None else arg
+                    par = None
+                    break
+        res.ob('R9', fmt(k), 'text argument of %s' % src(call)[:60], par is not None, src(arg)[:80])
+        if par is None:
+            res.violation('R9', '%s:%s:text-rewritten' % k, m.where(call),
+                          'the text handed to %s is %s, not the formula text this function was given: a pass that rewrites the formula in front '
+                          'of the lexer also rewrites what is inside quoted literals and what separates the tokens - the lexical conventions are '
+                          'those of the lexer, applied to the formula as written' % (src(call.func), src(arg)[:80]), func=k[1])
+            continue
+        idx = sa.params(f).index(par) - (1 if sa.self_name(f) else 0)
+        # callers inside the package hand their own text on
+        for ck in sorted(cg.callers_of(k)):
+            cm, cf = cg.funcs[ck]
+            for n in walk_no_defs(cf):
+                if isinstance(n, ast.Call) and k in cg.sites.get((ck, id(n)), set()) and len(n.args) > idx:
+                    todo.append((ck, cm, cf, n, n.args[idx]))
+    res.analysed['links of the text hand-over chain'] = n_links
